@@ -253,6 +253,33 @@ def run_impl(driver, case):
                     break
         except Exception as ex:
             out["inplace"] = "raises %s" % type(ex).__name__
+    # TensorFlow statistics in float32 on data whose mean is hundreds of times its spread (pixel coordinates): variance and
+    # standard deviation of the valid elements, against a binary64 two-pass reference (a textbook-correct but cancellation-prone
+    # formula is off by percents here, float32 rounding of a sound one by 1e-4 at most)
+    if getattr(driver, "name", "") == "tf" and case["inputs"]:
+        try:
+            t = case["inputs"][0]
+            a = np.array([dec_val(v) for v in t["vals"]], dtype=np.float64).reshape(t["shape"])
+            m = np.array(t["mask"], dtype=bool).reshape(t["shape"])
+            if a.ndim >= 1 and a.size and np.isfinite(a[m]).all():
+                a = np.where(np.isfinite(a), a, 0.0) + 4096.0
+                x = driver.MT(driver.tf.constant(a.astype(np.float32)), driver.tf.constant(m))
+                for ax in [None] + list(range(a.ndim)):
+                    cnt = m.sum(axis=ax)
+                    with np.errstate(all="ignore"):
+                        mean = np.where(m, a, 0.0).sum(axis=ax, keepdims=True) / np.maximum(m.sum(axis=ax, keepdims=True), 1)
+                        var = (np.where(m, (a - mean) ** 2, 0.0)).sum(axis=ax) / np.maximum(cnt, 1)
+                    got_v = np.asarray(x.variance(axis=ax).tensor, dtype=np.float64)
+                    got_s = np.asarray(x.std(axis=ax).tensor, dtype=np.float64)
+                    ok = np.asarray(cnt) > 0
+                    tolv = 2e-3 * np.maximum(var, 1.0)
+                    if got_v.shape != np.asarray(var).shape or (np.abs(got_v - var)[ok] > tolv[ok] if np.ndim(var) else (ok and abs(got_v - var) > tolv)).any() \
+                            or (np.abs(got_s - np.sqrt(var))[ok] > 2e-3 * np.maximum(np.sqrt(var), 1.0)[ok] if np.ndim(var) else
+                                (ok and abs(got_s - np.sqrt(var)) > 2e-3 * max(float(np.sqrt(var)), 1.0))).any():
+                        out["stat32"] = ax if ax is not None else "all"
+                        break
+        except Exception as ex:
+            out["stat32"] = "raises %s" % type(ex).__name__
     return out
 
 
